@@ -145,8 +145,12 @@ impl<'r, R: ReadValue> Field<'r, R> {
         match self.value {
             FieldValue::Len(len) => {
                 self.consume_field()?;
+                let reader = self
+                    .reader
+                    .sub_limit(len)
+                    .map_err(|err| err.with_context(self.context, Some(self.number)))?;
                 Ok(Fields {
-                    reader: self.reader.sub_limit(len),
+                    reader,
                     context,
                     unconsumed_field: None,
                 })
@@ -242,7 +246,7 @@ impl<'r, R: ReadValue> Field<'r, R> {
             FieldValue::Varint(val) => Repeated::Unpacked(Some(from_u64(val))),
             FieldValue::Len(len) => {
                 let consumed = &mut self.consumed;
-                let mut reader = self.reader.sub_limit(len);
+                let mut reader = self.reader.sub_limit(len)?;
                 let iter = std::iter::from_fn(move || match reader.read_varint() {
                     Ok(val) => Some(Ok(from_u64(val))),
                     Err(err) if matches!(err.kind(), ErrorKind::Eof) => {
@@ -269,7 +273,7 @@ impl<'r, R: ReadValue> Field<'r, R> {
             FieldValue::I32(val) => Repeated::Unpacked(Some(from_le_bytes(val.to_le_bytes()))),
             FieldValue::Len(len) => {
                 let consumed = &mut self.consumed;
-                let mut reader = self.reader.sub_limit(len);
+                let mut reader = self.reader.sub_limit(len)?;
                 let iter = std::iter::from_fn(move || match reader.read_i32() {
                     Ok(val) => Some(Ok(from_le_bytes(val.to_le_bytes()))),
                     Err(err) if matches!(err.kind(), ErrorKind::Eof) => {
@@ -296,7 +300,7 @@ impl<'r, R: ReadValue> Field<'r, R> {
             FieldValue::I64(val) => Repeated::Unpacked(Some(from_le_bytes(val.to_le_bytes()))),
             FieldValue::Len(len) => {
                 let consumed = &mut self.consumed;
-                let mut reader = self.reader.sub_limit(len);
+                let mut reader = self.reader.sub_limit(len)?;
                 let iter = std::iter::from_fn(move || match reader.read_i64() {
                     Ok(val) => Some(Ok(from_le_bytes(val.to_le_bytes()))),
                     Err(err) if matches!(err.kind(), ErrorKind::Eof) => {
@@ -453,8 +457,15 @@ impl<'r, R: ReadValue> Fields<'r, R> {
         }
         .map_err(|err| err.with_context(self.context, Some(number)))?;
 
+        // For variable-length fields, this checks that the field ends within
+        // the message.
+        let reader = self
+            .reader
+            .sub_limit(len)
+            .map_err(|err| err.with_context(self.context, Some(number)))?;
+
         Ok(Some(Field {
-            reader: self.reader.sub_limit(len),
+            reader,
             number,
             consumed: !matches!(value, FieldValue::Len(_)),
             value,
@@ -534,6 +545,43 @@ mod tests {
         assert!(matches!(err.kind(), ErrorKind::FieldNotConsumed));
         assert_eq!(err.context(), Some("TestMessage"));
         assert_eq!(err.field(), Some(3));
+    }
+
+    #[test]
+    fn test_field_length_overflow() {
+        // Lengths which wrap around when added to the current position, or
+        // are negative when cast to a signed offset.
+        for len in [1 << 63, (1 << 63) + 1, u64::MAX - 11, u64::MAX - 1, u64::MAX] {
+            let mut buf = Vec::new();
+            buf.extend(FieldValue::Len(len).encode(15));
+            buf.extend([1, 2, 3, 4]);
+
+            let err = read_fields(&buf).err().unwrap();
+            assert!(matches!(err.kind(), ErrorKind::Eof));
+        }
+    }
+
+    #[test]
+    fn test_field_exceeds_message() {
+        // Embedded message which contains a field that extends beyond the
+        // end of the message.
+        let mut sub_msg = Vec::new();
+        sub_msg.extend(FieldValue::Len(3).encode(1));
+        sub_msg.extend([1, 2, 3]);
+
+        let mut buf = Vec::new();
+        buf.extend(FieldValue::Len(sub_msg.len() as u64 - 1).encode(1));
+        buf.extend(sub_msg);
+        buf.extend(FieldValue::Varint(3).encode(2));
+
+        let mut reader = ValueReader::from_buf(buf);
+        let mut fields = Fields::new(&mut reader, Some("TestMessage"));
+        let mut sub_field = fields.next().unwrap().unwrap();
+        let mut sub_fields = sub_field.read_message(Some("SubMessage")).unwrap();
+        let err = sub_fields.next().err().unwrap();
+        assert!(matches!(err.kind(), ErrorKind::Eof));
+        assert_eq!(err.context(), Some("SubMessage"));
+        assert_eq!(err.field(), Some(1));
     }
 
     #[test]
